@@ -332,7 +332,7 @@ Definition conflict_at (b : backend) (pkgs : list pkg) (me : pkg) (s : st) (h : 
   if is_lazy b then
     (h_kind h = KReg \/ h_kind h = KSym) /\
     exists j gs, ((exists md dt, fs_get (s_fs s) (h_path h) = Some (NFile gs md (Some j) dt)) \/
-                  fs_get (s_fs s) (h_path h) = Some (NSym gs (Some j))) /\
+                  (exists lk, fs_get (s_fs s) (h_path h) = Some (NSym gs (Some j) lk))) /\
                  decide_lazy (nth j pkgs no_pkg) me gs (h_sum h) = Conflict
   else
     h_kind h = KReg /\
@@ -351,7 +351,7 @@ Proof.
     assert (Hneq := decide_lazy_conflict_neq _ _ _ _ Hc).
     assert (E : step_lazy_file pkgs i me s h = IErr (EConflict (h_path h)) s).
     { unfold step_lazy_file, need_dir. rewrite Hd.
-      destruct Hn as [(md & dt & G)|G]; rewrite G.
+      destruct Hn as [(md & dt & G)|(lk & G)]; rewrite G.
       - destruct (h_kind h); cbn match; rewrite Hc; reflexivity.
       - destruct (h_kind h); cbn match; try (rewrite Hc; reflexivity).
         rewrite Hneq. rewrite Hc. reflexivity. }
@@ -484,7 +484,7 @@ Qed.
 
 (* the full statement: every recorded entry exists with the recorded mode and owner *)
 Definition node_perm (n : node) : N :=
-  match n with NDir m => N.land m 511 | NFile _ m _ _ => N.land m 511 | NSym _ _ => 511 | NOther => 0 end.
+  match n with NDir m => N.land m 511 | NFile _ m _ _ => N.land m 511 | NSym _ _ _ => 511 | NOther => 0 end.
 Definition DbMatchesFs (f : final) : Prop :=
   forall k entries h, nth_error (f_db f) k = Some entries -> In h entries ->
     exists n, fs_get (f_fs f) (h_path h) = Some n /\
@@ -577,44 +577,58 @@ Proof.
   destruct H as [H|H]; [inv_ok H; rewrite path_eqb_refl in E; discriminate | eapply IH; exact H].
 Qed.
 
+Lemma kind_eqb_eq : forall a b, kind_eqb a b = true <-> a = b.
+Proof. destruct a, b; cbn; split; intro; try reflexivity; discriminate. Qed.
+
+Lemma winner_present_iff : forall tree p i sm k,
+  winner_present tree p (i, sm, k) = true <->
+  exists n, tree_get tree p = Some n /\ t_kind n = tkind_of k /\ (k <> KDir -> t_sum n = sm).
+Proof.
+  intros tree p i sm k. unfold winner_present.
+  destruct (tree_get tree p) as [n|]; [|split; [discriminate | intros (n & H & _); discriminate]].
+  rewrite andb_true_iff, orb_true_iff, tkind_eqb_eq, N.eqb_eq. unfold is_dir_kind. rewrite kind_eqb_eq.
+  split.
+  - intros [A B]. exists n. split; [reflexivity|]. split; [exact A|]. intro Hk. destruct B as [B|B]; [contradiction | exact B].
+  - intros (n' & E & A & B). inv_ok E. split; [exact A|].
+    destruct k; try (right; apply B; discriminate). left; reflexivity.
+Qed.
+
 Lemma winners_present_iff : forall m tree,
   winners_present m tree = true <->
   forall p i sm k, own_get m p = Some (i, sm, k) ->
-    exists n, tree_get tree p = Some n /\ t_kind n = tkind_of k /\ t_sum n = sm.
+    exists n, tree_get tree p = Some n /\ t_kind n = tkind_of k /\ (k <> KDir -> t_sum n = sm).
 Proof.
   intros m tree. unfold winners_present. rewrite forallb_forall. split.
   - intros H p i sm k G. destruct (own_get_in _ _ _ G) as (q & A & B). subst q.
-    specialize (H _ A). cbn [fst] in H. rewrite G in H.
-    destruct (tree_get tree p) as [n|]; [|discriminate].
-    apply andb_true_iff in H. destruct H as [H1 H2].
-    exists n. split; [reflexivity|]. split; [apply tkind_eqb_eq; exact H1 | symmetry; apply N.eqb_eq; rewrite N.eqb_sym; exact H2].
+    specialize (H _ A). cbn [fst] in H. rewrite G in H. apply (proj1 (winner_present_iff tree p i sm k)). exact H.
   - intros H [p v] Hin. cbn [fst]. destruct (in_own_get _ _ _ Hin) as ([[i sm] k] & G). rewrite G.
-    destruct (H _ _ _ _ G) as (n & A & B & C). rewrite A. apply andb_true_iff. split.
-    + apply tkind_eqb_eq. exact B.
-    + apply N.eqb_eq. exact C.
+    apply (proj2 (winner_present_iff tree p i sm k)). eapply H. exact G.
 Qed.
 
-Lemma walk_files_spec_nofail : forall hs pkgs i me m, walk_files spec_rule pkgs i me m hs <> WFail.
+(* the spec's rule never answers "fails some other way" nor "cannot be told" *)
+Definition decided (r : walk_res) : Prop :=
+  match r with WOk _ _ | WConflict _ _ => True | _ => False end.
+
+Lemma walk_files_spec_decided : forall hs pkgs i me m u, decided (walk_files spec_rule pkgs i me m u hs).
 Proof.
-  induction hs as [|h hs IH]; intros pkgs i me m; cbn; [discriminate|].
+  induction hs as [|h hs IH]; intros pkgs i me m u; cbn; [exact I|].
   destruct (h_kind h); try apply IH;
     (destruct (own_get m (h_path h)) as [[[j gs] k]|]; [|apply IH];
-     unfold spec_rule; destruct (spec_clash (nth j pkgs no_pkg) me gs (h_sum h)); try apply IH; discriminate).
+     unfold spec_rule; destruct (spec_clash_k (nth j pkgs no_pkg) me k _ gs (h_sum h)); try apply IH; exact I).
 Qed.
-Lemma walk_pkgs_spec_nofail : forall todo pkgs i m, walk_pkgs spec_rule pkgs i m todo <> WFail.
+Lemma walk_pkgs_spec_decided : forall todo pkgs i m u, decided (walk_pkgs spec_rule pkgs i m u todo).
 Proof.
-  induction todo as [|me todo IH]; intros pkgs i m; cbn; [discriminate|].
-  destruct (walk_files spec_rule pkgs i me m (p_files me)) eqn:E; [apply IH | discriminate|].
-  exfalso. exact (walk_files_spec_nofail _ _ _ _ _ E).
+  induction todo as [|me todo IH]; intros pkgs i m u; cbn; [exact I|].
+  pose proof (walk_files_spec_decided (p_files me) pkgs i me m u) as D.
+  destruct (walk_files spec_rule pkgs i me m u (p_files me)); try contradiction; [apply IH | exact I].
 Qed.
 
 Theorem rules_validator_decides : forall pkgs e tree,
   agrees (spec_walk pkgs) e tree = true <-> RulesObeyed pkgs e tree.
 Proof.
   intros pkgs e tree. unfold agrees, RulesObeyed.
-  (* the spec's rule never answers "fails some other way" *)
-  pose proof (walk_pkgs_spec_nofail pkgs pkgs 0 []) as NF. fold (spec_walk pkgs) in NF.
-  destruct (spec_walk pkgs) as [m|p|]; [| |contradiction].
+  pose proof (walk_pkgs_spec_decided pkgs pkgs 0 [] []) as NF. fold (spec_walk pkgs) in NF.
+  destruct (spec_walk pkgs) as [m u|p u|u|p wk gs u]; try contradiction.
   - rewrite andb_true_iff, eclass_eqb_eq, winners_present_iff. tauto.
   - apply eclass_eqb_eq.
 Qed.
@@ -626,15 +640,20 @@ Proof. intros. split; [apply app_eq_nil | intros [-> ->]; reflexivity]. Qed.
 Lemma tag_if_nil : forall b t, tag_if b t = [] <-> b = false.
 Proof. intros [|] t; cbn; split; intro; try reflexivity; discriminate. Qed.
 
-Theorem entry_validator_decides : forall pre tree fm d,
-  check_entry pre tree fm d = [] <-> EntryTrue tree d.
+Theorem entry_validator_decides : forall b pre tree fm d,
+  check_entry b pre tree fm d = [] <-> EntryTrue tree d.
 Proof.
-  intros pre tree fm d. unfold check_entry, EntryTrue.
-  destruct (tree_get tree (d_path d)) as [n|];
+  intros b pre tree fm d. unfold check_entry, EntryTrue.
+  destruct (tree_lookup tree (d_path d)) as [n|];
     [|split; [discriminate | intros (n & H & _); discriminate]].
+  match goal with |- (if ?c then _ else _) = [] <-> _ => destruct c eqn:DirLink end.
+  { (* a directory entry over a symbolic link is never true *)
+    split; [discriminate|]. intros (n' & E & Hd & _). inv_ok E. exfalso.
+    apply andb_true_iff in DirLink. destruct DirLink as [D1 D2]. apply tkind_eqb_eq in D2.
+    apply Hd in D1. congruence. }
   match goal with |- (if ?c then _ else _) = [] <-> _ => destruct c eqn:Stale end.
   - (* a stale entry under a symbolic link is never true *)
-    split; [discriminate|]. intros (n' & E & _ & _ & _ & Hs). inv_ok E. exfalso.
+    split; [destruct (is_lazy b); discriminate|]. intros (n' & E & _ & _ & _ & Hs). inv_ok E. exfalso.
     apply andb_true_iff in Stale. destruct Stale as [S1 S3].
     apply andb_true_iff in S1. destruct S1 as [_ S2]. apply tkind_eqb_eq in S2.
     destruct (d_sum d) as [sm|]; [|discriminate].
@@ -643,36 +662,19 @@ Proof.
     assert (P1 : negb (Bool.eqb (d_dir d) (tkind_eqb (t_kind n) TDir)) = false <-> (d_dir d = true <-> t_kind n = TDir)).
     { rewrite negb_false_iff, Bool.eqb_true_iff. rewrite <- (tkind_eqb_eq (t_kind n) TDir).
       destruct (d_dir d), (tkind_eqb (t_kind n) TDir); intuition congruence. }
-    assert (P2 : (if N.eqb (N.land (t_mode n) 511) (d_perm d) then []
-                  else if d_dir d && match fm (d_path d) with
-                                     | Some f => N.eqb f (N.land (t_mode n) 511) && negb (N.eqb f (d_perm d))
-                                     | None => false end
-                       then ["viol:dir-mode-first-wins"]
-                       else if negb (d_dir d) && match tree_get pre (d_path d) with
-                                                 | Some o => tkind_eqb (t_kind o) TReg && N.eqb (t_sum o) (t_sum n) && N.eqb (t_mode o) (t_mode n)
-                                                 | None => false end
-                            then ["viol:db-records-preexisting-file"]
-                            else if negb (d_dir d) && tkind_eqb (t_kind n) TReg && match d_sum d with None => true | Some _ => false end
-                                 then ["viol:db-hardlink-records-header-mode"]
-                                 else ["viol:db-mode-mismatch"]) = [] <-> N.land (t_mode n) 511 = d_perm d).
+    match goal with |- (_ /\ ?M = [] /\ ?O = [] /\ ?C = []) <-> _ =>
+      assert (P2 : M = [] <-> N.land (t_mode n) 511 = d_perm d);
+      [| assert (P3 : O = [] <-> ((t_uid n < 0)%Z \/ (t_uid n = Z.of_N (d_uid d) /\ t_gid n = Z.of_N (d_gid d))));
+         [| assert (P4 : C = [] <-> (forall sm, d_sum d = Some sm -> t_kind n = TReg \/ t_kind n = TSym -> t_sum n = sm)) ] ]
+    end.
     { destruct (N.eqb_spec (N.land (t_mode n) 511) (d_perm d)) as [E|E]; [tauto|].
       split; [|contradiction].
       repeat match goal with |- (if ?c then _ else _) = [] -> _ => destruct c end; discriminate. }
-    assert (P3 : (if (t_uid n <? 0)%Z then []
-                  else if Z.eqb (t_uid n) (Z.of_N (d_uid d)) && Z.eqb (t_gid n) (Z.of_N (d_gid d)) then []
-                  else if Z.eqb (t_uid n) 0 && Z.eqb (t_gid n) 0 then ["viol:db-owner-not-applied"]
-                  else ["viol:db-owner-mismatch"]) = [] <->
-                 ((t_uid n < 0)%Z \/ (t_uid n = Z.of_N (d_uid d) /\ t_gid n = Z.of_N (d_gid d)))).
     { destruct (Z.ltb_spec (t_uid n) 0) as [L|L]; [tauto|].
       destruct (Z.eqb_spec (t_uid n) (Z.of_N (d_uid d))) as [E1|E1];
         destruct (Z.eqb_spec (t_gid n) (Z.of_N (d_gid d))) as [E2|E2]; cbn [andb];
         try tauto;
         (split; [destruct (Z.eqb (t_uid n) 0 && Z.eqb (t_gid n) 0); discriminate | intros [?|[? ?]]; [lia | contradiction]]). }
-    assert (P4 : match d_sum d with
-                 | Some sm => tag_if ((tkind_eqb (t_kind n) TReg || tkind_eqb (t_kind n) TSym) && negb (N.eqb (t_sum n) sm)) "viol:db-content-mismatch"
-                 | None => []
-                 end = [] <->
-                 (forall sm, d_sum d = Some sm -> t_kind n = TReg \/ t_kind n = TSym -> t_sum n = sm)).
     { destruct (d_sum d) as [sm|]; [|split; [intros _ sm H; discriminate | reflexivity]].
       rewrite tag_if_nil, andb_false_iff, orb_false_iff, negb_false_iff, N.eqb_eq.
       split.
@@ -681,4 +683,48 @@ Proof.
     rewrite P1, P2, P3, P4. split.
     + intros (A & B & C & D). exists n. auto.
     + intros (n' & E & A & B & C & D). inv_ok E. auto.
+Qed.
+
+(* ---- the model with path resolution extends the declining one -------------- *)
+Definition declined {A : Type} (r : ires A) : Prop :=
+  match r with IErr EUnsupported _ => True | _ => False end.
+
+Lemma step_l_agrees : forall b pkgs i me s h,
+  ~ declined (step b pkgs i me s h) -> step_l b pkgs i me s h = step b pkgs i me s h.
+Proof.
+  intros b pkgs i me s h H. unfold step_l.
+  destruct (step b pkgs i me s h) as [r|e s']; [reflexivity|].
+  destruct e; try reflexivity. exfalso. apply H. exact I.
+Qed.
+
+Lemma install_files_l_agrees : forall b pkgs i me hs s acc,
+  ~ declined (install_files b pkgs i me s acc hs) ->
+  install_files_l b pkgs i me s acc hs = install_files b pkgs i me s acc hs.
+Proof.
+  induction hs as [|h hs IH]; intros s acc H; cbn in *; [reflexivity|].
+  destruct (step b pkgs i me s h) as [[s1 app]|e s1] eqn:S.
+  - rewrite step_l_agrees by (rewrite S; exact (fun x => x)). rewrite S. apply IH. exact H.
+  - rewrite step_l_agrees by (rewrite S; exact H). rewrite S. reflexivity.
+Qed.
+
+Lemma install_all_l_agrees : forall b pkgs todo i s done,
+  ~ declined (install_all b pkgs i s done todo) ->
+  install_all_l b pkgs i s done todo = install_all b pkgs i s done todo.
+Proof.
+  induction todo as [|me todo IH]; intros i s done H; cbn in *; [reflexivity|].
+  destruct (install_files b pkgs i me s [] (p_files me)) as [[s1 files]|e s1] eqn:F.
+  - rewrite install_files_l_agrees by (rewrite F; exact (fun x => x)). rewrite F. apply IH. exact H.
+  - rewrite install_files_l_agrees by (rewrite F; exact H). rewrite F. reflexivity.
+Qed.
+
+(* whenever the declining model answers (success, or an error of the real
+   code), the model with path resolution gives the same answer *)
+Theorem install_l_conservative : forall b pkgs init,
+  (forall s, install b pkgs init <> RFail EUnsupported s) ->
+  install_l b pkgs init = install b pkgs init.
+Proof.
+  intros b pkgs init H. unfold install_l, install in *.
+  rewrite install_all_l_agrees; [reflexivity|].
+  destruct (install_all b pkgs 0 {| s_fs := init; s_if := [] |} [] pkgs) as [[s all]|e s]; [exact (fun x => x)|].
+  destruct e; try exact (fun x => x). intros _. apply (H s). reflexivity.
 Qed.
